@@ -187,7 +187,7 @@ def scenario_text(script_path, sid):
 
 def graph_replay(ctx, spec_dir, module, cfg, tag, replayer, proj_keys, header_fn=None, merge_re=None,
                  max_paths=None, extra_random=0, must_take=None, tlc_kw=None, replayer_args=None,
-                 replay_timeout=900, key_fn=None, terminal=True, constants=None, env=None, defs=None):
+                 replay_timeout=900, key_fn=None, terminal=True, constants=None, env=None, defs=None, variants=None):
     """TLC exhaustive run with state-graph dump; invariants checked by TLC; an edge-covering path
     set is replayed on the implementation through `replayer` (path of a built binary).
     Returns (TlcResult, graph or None)."""
@@ -224,15 +224,24 @@ def graph_replay(ctx, spec_dir, module, cfg, tag, replayer, proj_keys, header_fn
     script = os.path.join(vlib.BUILD, "%s_%s.script" % (ctx.prop, tag))
     n = 0
     with open(script, "w") as f:
-        for k, (init, steps) in enumerate(paths):
+        k = 0
+        for (init, steps) in paths:
             steps = merge_steps(steps, merge_re)
             st0 = g.state(init)
-            hdr = header_fn(k, st0) if header_fn else {}
-            f.write("BEGIN %s_%d %s\n" % (tag, k, vlib.canon(hdr)))
+            body = []
             for (label, dst) in steps:
-                f.write("%s\t%s\n" % (label.replace("\n", " "), vlib.canon(proj_keys(g.state(dst)) if callable(proj_keys) else vlib.project(g.state(dst), proj_keys))))
-                n += 1
-            f.write("END\n")
+                body.append("%s\t%s\n" % (label.replace("\n", " "), vlib.canon(proj_keys(g.state(dst)) if callable(proj_keys) else vlib.project(g.state(dst), proj_keys))))
+            # variants: the same behaviour replayed once per header variant (e.g. equivalent API entry points)
+            for var in (variants or [None]):
+                hdr = header_fn(k, st0) if header_fn else {}
+                if var:
+                    hdr = dict(hdr)
+                    hdr.update(var)
+                f.write("BEGIN %s_%d %s\n" % (tag, k, vlib.canon(hdr)))
+                f.write("".join(body))
+                f.write("END\n")
+                n += len(body)
+                k += 1
     rc, out = vlib.run_cmd([replayer] + (replayer_args or []), stdin_path=script, timeout=replay_timeout, env=env)
     pr = parse_replay_output(out)
     if pr["summary"] is None:
